@@ -205,7 +205,11 @@ def mxint2bitstore(f: Union[str, float]) -> BitStore:
 
 
 def int2bitstore(i: int, length: int, signed: bool) -> BitStore:
-    i = int(i)
+    try:
+        i = int(i)
+    except OverflowError as e:
+        # e.g. from float('inf')
+        raise bitstring.CreationError(f"Can't convert {i} to an integer: {e}")
     try:
         x = BitStore(bitarray.util.int2ba(i, length=length, endian='big', signed=signed))
     except OverflowError as e:
